@@ -252,7 +252,7 @@ PROPS = {
                     "spowtd.rise:compute_rise_offsets", "spowtd.rise:compute_rise_offsets#reference",
                     "spowtd.recession:find_recession_offsets", "spowtd.recession:find_recession_offsets#reference",
                     "spowtd.recession:compute_offsets", "spowtd.recession:compute_offsets#reference"],
-        "structural": ["pyvc.structural:main_obligations", "pyvc.structural:step_obligations"],
+        "structural": ["pyvc.structural:main_obligations", "pyvc.structural:step_obligations", "pyvc.structural:frame_obligations"],
         "bounded": [{"run": "bounded.atomicity_checks:run_C20",
                      "what": "fault enumeration on a real database file: every SQL statement of every step as a failure point, a sample "
                              "as kill point (process exit without rollback), re-run after failure, all orders of the independent steps with "
@@ -263,11 +263,13 @@ PROPS = {
                       "functions' postconditions say they commit last (classify, rise, recession) or not at all (grid, curvature). With the "
                       "AST-level obligations on user_interface.main (each step is the only statement of one `with sqlite3.connect(args.db)` "
                       "block, no handler, no manual transaction control) and the assumed contract of SQLite / sqlite3, a failed or killed "
-                      "step leaves the old content or the complete result. Commutation: the tables each step writes (from the SQL "
-                      "contracts) are disjoint from what the other reads or writes; exercised by the fault enumeration.",
+                      "step leaves the old content or the complete result. Commutation: read and write frames of every step are "
+                      "extracted mechanically from the SQL texts of its module (views expanded through schema.sql; every identifier "
+                      "naming a table counts as a read) and the Bernstein conditions are obligations for the four independent pairs "
+                      "(classify / set-zeta-grid / set-curvature pairwise, rise / recession); exercised by the fault enumeration.",
         "level_note": "Assumed, never counted as proved: SQLite's journal / atomic commit, the OS, Python's sqlite3 (opens a transaction "
-                      "before the first DML; `with` commits on normal exit and rolls back on exception). Read frames are not derived "
-                      "mechanically in this revision.",
+                      "before the first DML; `with` commits on normal exit and rolls back on exception). Commutation additionally assumes that a step is a function of the "
+                      "tables it reads and its arguments (no other state: checked for SQL, not for files / environment).",
     },
     "C10": {
         "targets": ["spowtd.load:populate_grid_time", "spowtd.load:populate_rainfall_intensity",
